@@ -25,11 +25,12 @@ Holders(o, b) == {h \in PH : o.hd[h].k = "H" /\ o.hd[h].pid = b}
 Failed(c)     == (c.cls = "err" /\ c.msg = "reserve") \/ (c.cls = "panic" /\ c.msg = "reserve")
 T(c)          == c.h
 
-IterOps   == {"extend", "collect", "display"}
+IterOps   == {"extend", "collect", "display", "from_utf8_lossy", "from_utf16", "from_utf16_lossy"}
 SizedOps  == {"with_capacity", "reserve", "shrink_to", "extend", "collect"}
 CloneOps  == {"clone", "clone_from"}
 TextCtors == {"from_str", "from_char"}
-Ctors     == {"new", "from_str", "from_static", "with_capacity", "from_char", "clone", "collect", "display"}
+Ctors     == {"new", "from_str", "from_static", "with_capacity", "from_char", "clone", "collect", "display",
+              "from_utf8_lossy", "from_utf16", "from_utf16_lossy"}
 EditOps   == {"push_str", "insert_str", "pop", "remove", "retain", "truncate", "clear"}
 AppendOps == {"push_str", "insert_str"}
 IndexOps  == {"insert_str", "remove", "truncate"}
